@@ -48,6 +48,69 @@ def load_known():
 # worker: verify one contract in its own process (own z3 context)
 
 
+_tree_hash = {}
+
+
+def tree_hash():
+    """sha256 over every source the verdict of a function can depend on: the
+    python sources of the tree under verification and the verifier itself
+    (engine, contracts, specifications, lemmas, known findings)"""
+    if 'h' in _tree_hash:
+        return _tree_hash['h']
+    h = hashlib.sha256()
+    roots = [os.path.join(REPO, 'stone'), os.path.join(HERE, 'pyvc'), os.path.join(HERE, 'contracts'),
+             os.path.join(HERE, 'spec'), os.path.join(HERE, 'lemmas')]
+    for root in roots:
+        for dp, dns, fns in sorted(os.walk(root)):
+            dns.sort()
+            if '__pycache__' in dp:
+                continue
+            for fn in sorted(fns):
+                if fn.endswith(('.py', '.jinja')):
+                    p = os.path.join(dp, fn)
+                    h.update(p.encode())
+                    h.update(open(p, 'rb').read())
+    for extra in ('known_findings.json', 'checker.py'):
+        h.update(open(os.path.join(HERE, extra), 'rb').read())
+    _tree_hash['h'] = h.hexdigest()
+    return _tree_hash['h']
+
+
+def cached_worker(job):
+    """Incremental verification: the report of a function is reused when
+    nothing it can depend on has changed (same sources of the tree, same
+    verifier, same tier and seed); any edit under $STONE_REPO/stone or /verif
+    invalidates every entry.  Several properties share the same carrier functions,
+    so a run over all properties proves each function once."""
+    target, tier, seed, known = job
+    if os.environ.get('VERIF_NO_CACHE'):
+        return worker(job)
+    cdir = os.path.join(HERE, '.cache')
+    os.makedirs(cdir, exist_ok=True)
+    key = hashlib.sha256(('%s|%s|%s|%s' % (tree_hash(), target, tier, seed)).encode()).hexdigest()
+    path = os.path.join(cdir, key + '.json')
+    if os.path.exists(path):
+        try:
+            out = json.load(open(path))
+            out['cached'] = True
+            return out
+        except Exception:
+            pass
+    out = worker(job)
+    if not out.get('crash'):
+        tmp = path + '.%d.tmp' % os.getpid()
+        json.dump(out, open(tmp, 'w'))
+        os.replace(tmp, path)
+        # keep the cache small: drop entries of other tree states
+        try:
+            entries = sorted((os.path.getmtime(os.path.join(cdir, f)), f) for f in os.listdir(cdir) if f.endswith('.json'))
+            for _, f in entries[:-400]:
+                os.remove(os.path.join(cdir, f))
+        except OSError:
+            pass
+    return out
+
+
 def worker(job):
     target, tier, seed, known = job
     t0 = time.time()
@@ -116,9 +179,12 @@ def main():
     if not targets:
         print('checker fault: no contracts registered for %s' % prop)
         return 3
-    jobs = [(t, args.tier, seed, known) for t in targets + canaries]
+    # heavy functions first (better packing on the process pool)
+    heavy = ('encode_sub', 'encode_union', 'encode_struct', 'decode_', 'json_compat')
+    order = sorted(targets + canaries, key=lambda t: 0 if any(h in t for h in heavy) else 1)
+    jobs = [(t, args.tier, seed, known) for t in order]
     with multiprocessing.Pool(min(args.jobs, len(jobs))) as pool:
-        reports = pool.map(worker, jobs, chunksize=1)
+        reports = pool.map(cached_worker, jobs, chunksize=1)
     by_target = dict((r['target'], r) for r in reports)
 
     fault = []
@@ -151,7 +217,7 @@ def main():
                       'paths': r['paths'], 'obligations': len(r['obligations']),
                       'discharged': sum(1 for o in r['obligations'] if o['status'] == 'discharged'),
                       'seconds': r.get('seconds'), 'solver_seconds': r.get('solver_seconds'),
-                      'inlined': r.get('inlined'), 'assumptions': r.get('assumptions'),
+                      'inlined': r.get('inlined'), 'assumptions': r.get('assumptions'), 'reused_from_cache': bool(r.get('cached')),
                       'unsupported': r.get('unsupported')})
         solver_s += r.get('solver_seconds') or 0.0
         n_obl += len(r['obligations'])
